@@ -1,4 +1,5 @@
 import MioModel.Lemmas.ResourceId
+import MioModel.Lemmas.Net
 /-! # C14 — Endpoints identify one connection forever; ids are never reused (id layout part)
 
 Bit layout of `ResourceId`, the poll token, the id generator, the transport/driver tables.
@@ -148,5 +149,29 @@ example : mk 3 .remote 5 = some 1283 ∧ adapterId 1283 = 3 ∧ resourceType 128
   decide
 example : mk 1 .local 0 = some 129 ∧ toToken 129 = 259 ∧ ofToken 259 = 129 := by decide
 example : ({ adapter := 2, rtype := .remote, last := 0 } : Gen).run 3 = [some 2, some 258, some 514] := by decide
+
+/-! ## history level (network model M5): an endpoint kept after its connection ended never
+addresses a newer one -/
+open Mio.Net in
+/-- ids handed out by one registry are pairwise distinct over the whole history, and every id in
+the registry map or in an event was handed out before (`< nextRemote`) -/
+theorem ids_never_reused (s : St) (h : Net.Reachable s) :
+    (s.regs.map (·.id)).Nodup ∧ (∀ r ∈ s.regs, r.id < s.nextRemote) ∧ s.live.Nodup :=
+  let f := Net.reachable_fresh s h
+  ⟨f.regsNodup, f.regsLt, f.liveNodup⟩
+
+open Mio.Net in
+/-- after an endpoint ended (by `Disconnected`, `remove`, failed connect …), in every later history
+`send` to it answers `ResourceNotFound`, the adapter's `send` is not invoked (no peer receives
+anything) and the registry never contains the id again -/
+theorem stale_endpoint_rejected (s s' s1 : St) (acts : List Act) (id : Nat) (a : Status)
+    (hid : id < s.nextRemote) (hgone : id ∉ s.live) (hrun : run s acts = some s')
+    (hs : step s' (.send id a) = some s1) :
+    s1.results.getLast? = some ("send", id, "ResourceNotFound") ∧ s1.adapterSends = s'.adapterSends ∧
+    id ∉ s1.live := by
+  obtain ⟨hnl, _⟩ := run_not_live acts s s' id hid hgone hrun
+  have hlive : isLive s' id = false := by simpa [isLive] using hnl
+  simp only [step, hlive, Bool.false_eq_true, if_false, Option.some.injEq] at hs; subst hs
+  exact ⟨by simp [record, showStatus], rfl, by simpa [record] using hnl⟩
 
 end Mio.C14
